@@ -16,7 +16,7 @@ func init() {
 		id: "C10",
 		li: levelInfo{
 			Level:       "other",
-			Explanation: "Static necessary conditions of the RESP codec's round trip. R1: the set of RespType constants, the decoder's two dispatches and the encoder's dispatch are the same set. R2 (escape analysis): a slice aliasing the reader's internal buffer (the result of ReadSlice) flows only into byte comparisons, len, parsing and copies - never into a decoded value, a return of a text/bulk decoder, or any store; otherwise a later refill, which happens or not depending on how the bytes were chunked, rewrites an already decoded value. R3: bulk framing agreement - the decoder reads n+2 bytes, tests offsets n and n+1 against CR and LF and returns [:n]; the encoder writes length, CR LF, bytes, CR LF. R4: null != empty by construction - the nil constant is returned exactly on the -1 paths, every other path returns an allocation that cannot be nil (read size provably >= 1, make for arrays); the encoder emits -1 exactly under == nil. R5: both length limits are tested before the allocation/read they protect (zone witnesses). R6: the buffered reader's 'buffer full' branch is taken only when the whole buffer is occupied by one unterminated line. Round-trip equality and chunk independence for all values are value-level and not decided. R7: the encoder's integer text comes from strconv / the itoa table, or from digit arithmetic that never negates a signed value. R8: the decoder's nesting counter is balanced on every path (shared with C11.R4) and inline commands are split on the space byte only. R2 also: an in-place append into a decoded text requires capacity-limited slab slices. R9: null and empty stay apart - no RESP text is replaced by a nil-ness changing copy of another text. R10: a hand-written n = n*10 + digit loop runs only over slices whose length has a zone witness small enough for the accumulator (18 digits for int64). R11: the slab cursor only advances or takes a fresh chunk. R12: the line reader's line end is start-of-window + index + 1. R8 also requires the depth guard to accept exactly the named depth.",
+			Explanation: "Static necessary conditions of the RESP codec's round trip. R1: the set of RespType constants, the decoder's two dispatches and the encoder's dispatch are the same set. R2 (escape analysis): a slice aliasing the reader's internal buffer (the result of ReadSlice) flows only into byte comparisons, len, parsing and copies - never into a decoded value, a return of a text/bulk decoder, or any store; otherwise a later refill, which happens or not depending on how the bytes were chunked, rewrites an already decoded value. R3: bulk framing agreement - the decoder reads n+2 bytes, tests offsets n and n+1 against CR and LF and returns [:n]; the encoder writes length, CR LF, bytes, CR LF. R4: null != empty by construction - the nil constant is returned exactly on the -1 paths, every other path returns an allocation that cannot be nil (read size provably >= 1, make for arrays); the encoder emits -1 exactly under == nil. R5: both length limits are tested before the allocation/read they protect (zone witnesses). R6: the buffered reader's 'buffer full' branch is taken only when the whole buffer is occupied by one unterminated line. Round-trip equality and chunk independence for all values are value-level and not decided. R7: the encoder's integer text comes from strconv / the itoa table, or from digit arithmetic that never negates a signed value. R8: the decoder's nesting counter is balanced on every path (shared with C11.R4) and inline commands are split on the space byte only. R2 also: an in-place append into a decoded text requires capacity-limited slab slices. R9: null and empty stay apart - no RESP text is replaced by a nil-ness changing copy of another text. R10: a hand-written n = n*10 + digit loop runs only over slices whose length has a zone witness small enough for the accumulator (18 digits for int64). R11: the slab cursor only advances or takes a fresh chunk. R12: the line reader's line end is start-of-window + index + 1. R8 also requires the depth guard to accept exactly the named depth. R12 also: the returned line starts at the read position; slices made by a helper of the reader are evaluated with its parameters bound to the arguments. R5 also: the length is not provably below the documented limit at the payload read / allocation (lengths up to the limit are accepted); a length read through a range-checking helper is followed.",
 			TrustedBase: []string{"go/ssa", "samlint ebounds.go + zone.go"},
 		},
 		run: checkC10,
@@ -1052,9 +1052,19 @@ func checkLineEndMatchesSearch(c *Ctx, rule string) {
 			co map[string]int64
 			k  int64
 		}
+		var env map[*ssa.Parameter]lform // parameters of a helper, bound to the forms of the arguments at its call
 		var lin func(v ssa.Value, depth int) lform
 		lin = func(v ssa.Value, depth int) lform {
 			out := lform{co: map[string]int64{}}
+			if prm, isPrm := v.(*ssa.Parameter); isPrm && env != nil {
+				if f, ok := env[prm]; ok {
+					cp := lform{co: map[string]int64{}, k: f.k}
+					for t, cc := range f.co {
+						cp.co[t] = cc
+					}
+					return cp
+				}
+			}
 			if cv, ok := constInt(v); ok {
 				out.k = cv
 				return out
@@ -1112,14 +1122,48 @@ func checkLineEndMatchesSearch(c *Ctx, rule string) {
 			return true
 		}
 		buf := accessPath(calls[0].Call.Args[0].(*ssa.Slice).X, nil, 0)
+		// the slices of the buffer: in the function itself, and in a helper of the reader that is handed the length
+		// (`return b.consume(i + 1)`)
+		type sliceSite struct {
+			sl  *ssa.Slice
+			env map[*ssa.Parameter]lform
+		}
+		var sites []sliceSite
 		eachInstr(fn, func(_ *ssa.BasicBlock, _ int, in2 ssa.Instruction) {
-			sl, ok := in2.(*ssa.Slice)
-			if !ok || sl.High == nil || buf == "" || accessPath(sl.X, nil, 0) != buf {
+			if sl, ok := in2.(*ssa.Slice); ok {
+				sites = append(sites, sliceSite{sl, nil})
 				return
+			}
+			call, ok := in2.(*ssa.Call)
+			if !ok {
+				return
+			}
+			g := calleeFn(call.Common())
+			if g == nil || g == fn || g.Blocks == nil || g.Signature.Recv() == nil || !types.Identical(g.Signature.Recv().Type(), fn.Signature.Recv().Type()) {
+				return
+			}
+			e := map[*ssa.Parameter]lform{}
+			env = nil
+			for i, prm := range g.Params {
+				if i > 0 && i < len(call.Call.Args) && intBits(prm.Type()) > 0 {
+					e[prm] = lin(call.Call.Args[i], 0)
+				}
+			}
+			eachInstr(g, func(_ *ssa.BasicBlock, _ int, y ssa.Instruction) {
+				if sl, ok := y.(*ssa.Slice); ok {
+					sites = append(sites, sliceSite{sl, e})
+				}
+			})
+		})
+		for _, ss := range sites {
+			sl, in2 := ss.sl, ssa.Instruction(ss.sl)
+			env = ss.env
+			if sl.High == nil || buf == "" || accessPath(sl.X, nil, 0) != buf {
+				continue
 			}
 			got := lin(sl.High, 0)
 			if got.co["idx"] == 0 {
-				return
+				continue
 			}
 			n++
 			site := fmt.Sprintf("%s line end#%d is search start + index + 1", fnKey(fn), n)
@@ -1177,7 +1221,8 @@ func checkLineEndMatchesSearch(c *Ctx, rule string) {
 			}
 			c.Check(startOK, rule, fmt.Sprintf("%s line#%d starts at the read position", fnKey(fn), n), sl.Pos(), "the returned line starts at the reader's cursor", "the returned line does not start at the read position (an offset - e.g. the number of bytes already scanned before the last fill - is added to it): a line that arrives in two reads loses its head, so \":1|234567\" decodes as 234567 and a bulk length \"$1|0\" as 0 - what is decoded depends on how the bytes were fragmented")
 			c.Check(same, rule, site, sl.Pos(), "end of the returned line = start of the searched window + index + 1", "the index returned by the search is relative to the start of the searched window, but the line end is computed from a different origin: when the window does not start at the read position (bytes already scanned before the last fill are skipped) the returned line is too short - the decoder sees a bad line terminator on a valid stream, the session (or the shared backend connection with everything in flight on it) is torn down, and whether that happens depends on how the bytes were fragmented")
-		})
+		}
+		env = nil
 	}
 	if n == 0 {
 		c.Unresolved(rule, "no delimiter search in the line reader")
